@@ -20,6 +20,6 @@ Definition model_obs (c : layout * list gen_call) : list obs1 :=
   map (fun wo => (registry (fst wo), aliases (fst wo), clients (fst wo), snd wo))
       (trace (fst c) init (snd c)).
 Definition guards (c : layout * list gen_call) : list bool :=
-  [wf_layout (fst c); guard_F11b (fst c) (snd c)].
+  [wf_layout (fst c)].
 Definition run (cases : list ((layout * list gen_call) * list obs1)) : list N :=
   report (list_eqb obs1_eqb) model_obs guards cases.
